@@ -24,15 +24,16 @@ type sigRec struct {
 
 // harness drives one real machine and the reference model side by side.
 type harness struct {
-	prop    string
-	n, own  int
-	appKind int
-	accs    []*gen.Acc
-	params  *channel.Params
-	m       *channel.StateMachine
-	res     *kernel.Result
-	trace   bool
-	step    int
+	lastChecked gen.Succ // the last candidate that passed CheckUpdate (same object)
+	prop        string
+	n, own      int
+	appKind     int
+	accs        []*gen.Acc
+	params      *channel.Params
+	m           *channel.StateMachine
+	res         *kernel.Result
+	trace       bool
+	step        int
 
 	// reference automaton (written from the doc comments of the operations)
 	ph         channel.Phase
@@ -316,6 +317,19 @@ func (h *harness) candidate(st *kernel.Step) (gen.Succ, bool) {
 	switch st.Str("kind") {
 	case "valid", "final":
 		return su, true
+	case "rechecked":
+		// same pointer and actor as the last candidate that CheckUpdate let
+		// through; with touch=1 its content is changed in place first
+		if h.lastChecked.State == nil {
+			return su, true
+		}
+		c := h.lastChecked
+		c.Mut = "rechecked"
+		if st.Int("touch") == 1 && len(c.State.Balances) > 0 && len(c.State.Balances[0]) > 0 {
+			c.State.Balances[0][0] = new(big.Int).Add(c.State.Balances[0][0], big.NewInt(1000))
+			c.Mut = "rechecked+touched"
+		}
+		return c, true
 	case "mut":
 		out, ok := safeMutate(r, st.Str("m"), cur, su, h.n, h.appKind)
 		if !ok {
@@ -441,12 +455,18 @@ func (h *harness) do(st *kernel.Step) {
 			if h.prop == "C02" && (err == nil) != refOK {
 				h.fail("C02.check@"+mutClass(c.Mut)+"/"+why, "CheckUpdate(%s) returned %v, reference says acceptable=%v (%s)", c.Mut, err, refOK, why)
 			}
+			if err == nil {
+				h.lastChecked = c
+			}
 			if !bytes.Equal(before, h.snapshot()) {
 				h.fail(h.prop+".check-mutates", "CheckUpdate changed the machine")
 			}
 		case "update":
 			want := h.ph == channel.Acting && refOK
 			err, pan := h.call(func() error { return h.m.Update(c.State, c.Actor) })
+			if err == nil && c.State == h.lastChecked.State {
+				h.lastChecked = gen.Succ{} // the machine owns the object now: it must not be changed any more
+			}
 			h.logf("update %s mut=%q actor=%d v=%d -> %v (ref %v %s)", st.Str("kind"), c.Mut, c.Actor, c.State.Version, err, refOK, why)
 			if pan {
 				h.fail(h.prop+".panic@update/"+mutClass(c.Mut), "Update panicked: %v", err)
